@@ -62,7 +62,7 @@ def gen_case(ctx):
             'N_sigma': rng.choice([1.0, 1.0] + pv), 'fft': rng.random() < 0.5,
             'how': rng.choice(['arg', 'dict', 'global']),
             'cov': rng.choice([None, None, 1, 2])}
-    case['alias'] = (len(reps) + sum(len(r['samples']) for r in reps)) % 4 == 0     # use `Obs.gm` instead of `Obs.gamma_method` (no extra random draw)
+    case['via'] = [None, None, None, 'gm', 'corr', 'corrmat', 'cobs', None][(len(reps) + sum(len(r['samples']) for r in reps)) % 8]     # entry point of the analysis (no extra random draw)
     return case
 
 
@@ -103,7 +103,18 @@ def run_impl(case, o):
         pe.Obs.N_sigma_global = case['N_sigma']
     try:
         # `gm` is the documented short form of `gamma_method`: both entry points are exercised
-        (o.gm if case.get('alias') else o.gamma_method)(fft=case['fft'], **kw)
+        # every entry point to the analysis: `Obs.gamma_method`, its short form `gm`, and the containers that forward to it
+        via = case.get('via') or ('gm' if case.get('alias') else None)
+        if via == 'gm':
+            o.gm(fft=case['fft'], **kw)
+        elif via == 'corr':
+            pe.Corr([o, None, o]).gamma_method(fft=case['fft'], **kw)
+        elif via == 'corrmat':
+            pe.Corr([np.array([[o, 1.0 * o], [1.0 * o, o]], dtype=object)]).gm(fft=case['fft'], **kw)
+        elif via == 'cobs':
+            pe.CObs(2.0 * o, o).gamma_method(fft=case['fft'], **kw)
+        else:
+            o.gamma_method(fft=case['fft'], **kw)
     except Exception as e:
         reset_globals()
         return {'exc': type(e).__name__ + ': ' + str(e)[:80]}
